@@ -9,8 +9,10 @@ pub mod c09;
 pub mod c10;
 pub mod c11;
 pub mod c15;
+pub mod c16;
 pub mod c19;
 pub mod c20;
+pub mod typed;
 
 pub fn lookup(id: &str) -> Option<Box<dyn Property>> {
     Some(match id {
@@ -22,6 +24,7 @@ pub fn lookup(id: &str) -> Option<Box<dyn Property>> {
         "C10" => Box::new(c10::C10),
         "C11" => Box::new(c11::C11),
         "C15" => Box::new(c15::C15),
+        "C16" => Box::new(c16::C16),
         "C19" => Box::new(c19::C19),
         "C20" => Box::new(c20::C20),
         _ => return None,
